@@ -363,6 +363,9 @@ def run(ctx):
     D.loops_visit_all(ctx, "R-C10.9", only=("journal::manager::JournalManager::maintenance", "supervisor::Supervisor::build_seqno_map", "recovery::recover_sealed_memtables"))
 
     # ---- borrowed obligations (mechanisms owned by other properties that this property's verdict also rests on)
+    # the deletion guard compares the PERSISTED seqno with the watermark: a write journaled while an ingestion registers its tables
+    # (seqno below theirs, but only in the memtable) would make the guard think the keyspace is flushed — ingestion holds the journal lock
+    ctx.borrow("C14", ["R-C14.2"], "R-C10.10")
     # journal maintenance trusts is_deleted: the flag is raised only after the deletion is durable
     ctx.borrow("C12", ["R-C12.1"], "R-C10.7")
 
